@@ -320,11 +320,18 @@ def _t_pad(c):
     else:
         w = ((c.int(0, 2), c.int(0, 2)),)
     mode = "constant" if not c.chance(1, 6) else c.choice(["edge", "reflect", "wrap"])
-    if c.bool():
-        fn = lambda ns, x: ns.pad(x, w, mode)
+    kw = {}
+    if mode == "constant" and c.chance(1, 3):
+        kw["constant_values"] = c.choice([0.7, (0.4, -1.1), 0])
+    form = c.int(0, 2)
+    if form == 0:
+        fn = lambda ns, x: ns.pad(x, w, mode, **kw)
+    elif form == 1:
+        fn = lambda ns, x: ns.pad(x, w, mode=mode, **kw)
     else:
-        fn = lambda ns, x: ns.pad(x, w, mode=mode)
-    return Call("s:pad", fn, [s], desc=["pad", list(s), w, mode], feats={"fn": "pad", "wkind": k, "mode": mode})
+        fn = (lambda ns, x: ns.pad(x, w, **kw)) if mode == "constant" else (lambda ns, x: ns.pad(x, pad_width=w, mode=mode))
+    return Call("s:pad", fn, [s], desc=["pad", list(s), w, mode, kw, form],
+                feats={"fn": "pad", "wkind": k, "mode": mode, "constant_values": "constant_values" in kw, "form": form})
 
 
 @template("s:split", "shape", weight=2)
@@ -453,7 +460,12 @@ def _t_where(c):
     n = _sz(res)
     bits = c.int(0, 2 ** min(n, 12) - 1)
     cond = onp.array([(bits >> (i % 12)) & 1 for i in range(n)], dtype=bool).reshape(res)
-    k = c.int(0, 2)  # 0 both arrays differentiated, 1 y python scalar, 2 x python scalar
+    k = c.int(0, 3)  # 0 both arrays differentiated, 1 y python scalar, 2 x python scalar, 3 the condition itself is traced
+    if k == 3:
+        # a float array used as its own mask: it sits in the non-differentiable slot and in a differentiable one
+        return Call("s:where", lambda ns, x, y: ns.where(x, x * 0.5, y), [sa, sb], dom=(0.3, 2.0),
+                    desc=["where", list(res), "cond=x", list(sa), list(sb)],
+                    feats={"fn": "where", "a_shape": list(sa), "b_shape": list(sb), "res_shape": list(res), "const": "cond"})
     if k == 0:
         return Call("s:where", lambda ns, x, y: ns.where(cond, x, y), [sa, sb], desc=["where", list(res), list(sa), list(sb), bits],
                     feats={"fn": "where", "a_shape": list(sa), "b_shape": list(sb), "res_shape": list(res), "const": None})
